@@ -1,3 +1,4 @@
 //! Independent reference implementations (oracles). They share no code with the crates under test.
 pub mod chunker;
 pub mod merkle;
+pub mod xorb;
